@@ -181,6 +181,9 @@ def render_reply(rnd, status_line, headers, fold_ok=True):
                 out += n2 + b":" + b"\r\n" + rnd.choice([b" ", b"\t"]) + v + trail + b"\r\n"
         else:
             out += n2 + b":" + lead + v + trail + b"\r\n"
+        if fold_ok and rnd.random() < 0.06:
+            # a fold whose continuation is empty: a line of blanks only.  It adds nothing to the value and ends nothing
+            out += rnd.choice([b" ", b"\t", b"  \t "]) + b"\r\n"
     return out + b"\r\n"
 
 
